@@ -6,9 +6,12 @@ Open Scope N_scope.
 
 (* one message: (index, reception time us, ecu, timestamp dms, extended header code: 0 none, else 1 + verb_mstp_mtin, lifecycle id) *)
 Definition raw_msg := (N * N * N * N * N * N)%type.
-(* input: window size (secs), minimum delay (us), lifecycle table (None: the read handle yields no map,
-   i.e. never refreshed or destroyed; Some l: published map id -> start time), the stream *)
-Definition case_C10 := (N * N * option (list (N * N)) * list raw_msg)%type.
+(* input: window size (secs), minimum delay (us), lifecycle table versions, the stream.
+   A version is (number of delivered messages from which it is in force, table); table None: the read handle
+   yields no map (never refreshed or destroyed), Some l: published map id -> start time.  The first version
+   is in force from 0; thresholds increase. *)
+Definition version := (N * option (list (N * N)))%type.
+Definition case_C10 := (N * N * list version * list raw_msg)%type.
 
 Fixpoint tag_msgs (t : N) (l : list raw_msg) : list msg :=
   match l with
@@ -20,6 +23,13 @@ Fixpoint assoc (l : list (N * N)) (id : N) : option N :=
   match l with [] => None | (k, v) :: r => if k =? id then Some v else assoc r id end.
 Definition table_of (t : option (list (N * N))) : N -> option N :=
   match t with None => fun _ => None | Some l => assoc l end.
+Fixpoint version_at (vs : list version) (np : N) (cur : option (list (N * N))) : option (list (N * N)) :=
+  match vs with
+  | [] => cur
+  | (t, tb) :: r => if t <=? np then version_at r np tb else cur
+  end.
+(* the table seen by a lookup made after np messages have been delivered *)
+Definition tables_of (vs : list version) : tables := fun _ np => table_of (version_at vs (N.of_nat np) None).
 
 Fixpoint leaves (l : list otree) : option (list N) :=
   match l with
@@ -36,7 +46,7 @@ Fixpoint list_N_eqb (a b : list N) : bool :=
   end.
 
 (* the observed tag sequence [tags] is the output of the run of the model whose picker is reconstructed from it *)
-Definition accepts (w mind : N) (lcs : N -> option N) (input : list msg) (tags : list N) : bool :=
+Definition accepts (w mind : N) (lcs : tables) (input : list msg) (tags : list N) : bool :=
   match run (pick_obs tags) w mind lcs input with
   | Ok out => list_N_eqb (map m_tag out) tags
   | _ => false
@@ -52,17 +62,17 @@ Definition agree_C10 (c : case_C10) (o : otree) : bool :=
   match o with
   | T [L 0; T ts; L intact] =>
       match leaves ts with
-      | Some tags => (intact =? 1) && accepts w mind (table_of tbl) input tags
+      | Some tags => (intact =? 1) && accepts w mind (tables_of tbl) input tags
       | None => false
       end
-  | T [L 1] => is_panic (run pick_first w mind (table_of tbl) input)
+  | T [L 1] => is_panic (run pick_first w mind (tables_of tbl) input)
   | _ => false
   end.
 
 (* diagnostics: the run that always pops the first minimal entry *)
 Definition run_C10 (c : case_C10) : otree :=
   let '(w, mind, tbl, raw) := c in
-  match run pick_first w mind (table_of tbl) (tag_msgs 0 raw) with
+  match run pick_first w mind (tables_of tbl) (tag_msgs 0 raw) with
   | Ok out => T [L 0; T (map (fun m => L (m_tag m)) out); L 1]
   | Panic s => T [L 1; L s]
   | OutOfFuel => T [L 2]
